@@ -193,6 +193,15 @@ def _replay(job):
     ds = new_ds(cfg0, temp0)
     out = []
     steps = []
+    # a quarter of the histories also observe through a hierarchy child that
+    # was created at the start, has read the features once and is refreshed
+    # before every observation
+    child = None
+    if crc % 4 == 1:
+        import dclab
+        child = dclab.new_dataset(ds)
+        for f in order:
+            read(child, f)
     for i, st in enumerate(case["h"]):
         state = st["state"]
         if st["a"] == "set":
@@ -208,6 +217,18 @@ def _replay(job):
             set_temp_features(ds, st["ver"])
         if not state["observe"]:
             continue
+        if child is not None:
+            child.rejuvenate()
+            for f in order:
+                chas, cgot = read(child, f)
+                _, cwant = fresh(state["cfg"], state["temp"], f)
+                if not same(cgot, cwant):
+                    out.append(("%s of a refreshed hierarchy child differs "
+                                "from a fresh dataset after %s" % (
+                                    f, st["a"] + " " + st.get("k", "temp")),
+                                "steps %s from %s" % (steps, descr(cfg0,
+                                                                   temp0)),
+                                i))
         for f in order:
             has, got = read(ds, f)
             fhas, want = fresh(state["cfg"], state["temp"], f)
